@@ -166,6 +166,11 @@ epochLoop:
 			if err != nil {
 				return nil, fmt.Errorf("error while reading linked log with next=%v: %w", next, err)
 			}
+			// Records are appended, so the pointer to the previous record always points backwards in the
+			// file. A corrupt log whose pointers form a cycle would otherwise be walked forever.
+			if !newNext.IsZero() && newNext.Offset >= next.Offset {
+				return nil, fmt.Errorf("corrupt linked log: the record at offset %d points to offset %d as its previous record", next.Offset, newNext.Offset)
+			}
 			klog.V(5).Infof("ReadWithSize took %s to get %d locs", time.Since(startedReadAt), len(locations))
 			if len(locations) == 0 {
 				continue epochLoop
@@ -270,6 +275,11 @@ epochLoop:
 			locations, newNext, err := index.ll.ReadWithSize(next.Offset, next.Size)
 			if err != nil {
 				return nil, fmt.Errorf("error while reading linked log with next=%v: %w", next, err)
+			}
+			// Records are appended, so the pointer to the previous record always points backwards in the
+			// file. A corrupt log whose pointers form a cycle would otherwise be walked forever.
+			if !newNext.IsZero() && newNext.Offset >= next.Offset {
+				return nil, fmt.Errorf("corrupt linked log: the record at offset %d points to offset %d as its previous record", next.Offset, newNext.Offset)
 			}
 			klog.V(5).Infof("ReadWithSize took %s to get %d locs", time.Since(startedReadAt), len(locations))
 			if len(locations) == 0 {
